@@ -2,13 +2,13 @@ SPECIFICATION Spec
 CONSTANTS
   Files = {1}
   Texts = {3}
-  Classes = {"io", "simple", "proto", "stop", "remote"}
+  Classes = {"io", "simple", "stop", "remote"}
   MaxInject = 1
-  MaxNoise = 0
-  WithBg = FALSE
+  MaxNoise = 1
+  WithBg = TRUE
   WithDead = {}
   AsCoded = FALSE
-  Mutant = "none"
+  Mutant = "nocas"
 INVARIANTS TypeOK ToldAtMostOnce ToldUnlessPeerKnows KindMatchesTraceback ShownIsSent OnlyCreated TermResetOnce DrainBounded
 
 CHECK_DEADLOCK FALSE
